@@ -204,6 +204,16 @@ def sorts_check(tier, seed):
                 viol.append({"key": "built-in-sorts", "pair": [a, b]})
     if Type("SortA") != Type("SortA") or Type("SortA") == Type("SortB"):
         viol.append({"key": "declared-sorts-by-name"})
+    # a non-positive bit-vector width is refused every time it is asked for
+    from pysmt.typing import BVType as _BVT
+    for w in (0, -1, 0, -1):
+        n += 1
+        try:
+            _BVT(w)
+            viol.append({"key": "non-positive-bit-vector-width-accepted", "width": w})
+            break
+        except Exception:
+            pass
     # a sort constructor of arity n has instances on exactly n argument sorts
     from pysmt.typing import PySMTType, _TypeDecl
     for nn in (0, 1, 2):
